@@ -422,6 +422,11 @@ func TestC13(t *testing.T) {
 
 func c13GenOp(rt *rapid.T) prog.Op {
 	op := c05GenOp(rt)
+	if rapid.IntRange(0, 7).Draw(rt, "copy") == 0 {
+		// versions also come from server-side copies (onto another key, or onto the key itself)
+		ks := []string{"a", "b/x", "b/y", "c", "d"}
+		return prog.Op{K: "copy", B: "bk0", Key: rapid.SampledFrom(ks).Draw(rt, "dst"), SB: "bk0", SKey: rapid.SampledFrom(ks).Draw(rt, "src")}
+	}
 	remap := func(k string) string {
 		// a < b/x < b/y < c < d: the group rolled up under delimiter '/' has plain keys on both sides
 		if k == "k0" {
@@ -484,6 +489,8 @@ func c13Run(t *testing.T, c *evid.Collector) {
 			{en, p("a", "1"), p("b/x", "2"), p("c", "after the group only"), p("c", "twice")},
 			{p("a", "0"), en, p("a", "1"), d("a"), p("b", "x"), su, p("b", "y"), d("a")},
 			{en, p("a", "1"), p("a", "2"), p("a", "3"), {K: "delver", B: "bk0", Key: "a", Ref: -1}, p("b", "1")},
+			{en, p("a", "1"), p("a", "22"), p("b/x", "333"), {K: "copy", B: "bk0", Key: "c", SB: "bk0", SKey: "a"}, {K: "copy", B: "bk0", Key: "a", SB: "bk0", SKey: "b/x"}, p("c", "4444"), {K: "copy", B: "bk0", Key: "c", SB: "bk0", SKey: "c"}},
+			{p("a", "1"), {K: "copy", B: "bk0", Key: "b", SB: "bk0", SKey: "a"}, en, {K: "copy", B: "bk0", Key: "b", SB: "bk0", SKey: "a"}, su, {K: "copy", B: "bk0", Key: "b", SB: "bk0", SKey: "b"}},
 		}
 		for _, h := range hs {
 			for _, pd := range [][2]string{{"", ""}, {"", "/"}, {"b/", "/"}, {"a", ""}, {"b", ""}} {
